@@ -17,5 +17,6 @@ AnySub(T0, P(_), fuel) == LET T == Resolve(T0) IN
          [] T.k = "struct" -> \E i \in 1..Len(T.f) : T.f[i].enc /\ AnySub(T.f[i].t, P, fuel - 1)
          [] OTHER -> FALSE)
 
+IsNullTime(T) == T.k = "null" /\ T.of = "time"
 IsPtrPtr(T) == T.k = "ptr" /\ Resolve(T.e).k = "ptr"
 =============================================================================
